@@ -29,6 +29,8 @@ OBSERVERS = ('E', 'deltaE_trial', 'transitions')
 
 def run(model, rep, tier):
     rep.explanation = __doc__.strip()
+    from ._common import caches_for
+    caches_for(model, rep, 'C33')
     rep.not_decided = 'energy values; equality with a brute-force sum'
     rep.rule('sole-writers', 'sampler state is written only by __init__, start, update')
     rep.rule('observer-pure', 'E, deltaE_trial, transitions assign nothing on self')
